@@ -53,6 +53,10 @@ type Ctx struct {
 	// computed with the real hint functions (honest prover).
 	ShadowOn  bool
 	AliasMode bool // compound results are mutable accumulators (see Mut)
+	// AliasSubst: in alias mode, what the storage of a plain variable holds after api.MulAcc rewrote it
+	// in place (gnark's R1CS builder does so when the result still has a single term: the variable
+	// plus a constant multiple of itself); later uses of that variable read the new contents
+	AliasSubst map[*Term]*Term
 	// Self is the API value handed to circuit code (one of the capability wrappers).
 	Self frontend.API
 	// CommitSummary: when a lookup argument (logderivarg) is built on top of Commit, membership
@@ -137,6 +141,11 @@ func (e *Ctx) wrap(t *Term) frontend.Variable {
 
 func (e *Ctx) K(v frontend.Variable) *Term {
 	if t, ok := v.(*Term); ok {
+		if e.AliasSubst != nil {
+			if s, ok := e.AliasSubst[t]; ok {
+				return s
+			}
+		}
 		return t
 	}
 	if m, ok := v.(*Mut); ok {
@@ -331,11 +340,36 @@ func (e *Ctx) Neg(a frontend.Variable) frontend.Variable {
 }
 func (e *Ctx) MulAcc(a, b, c frontend.Variable) frontend.Variable {
 	r := e.bin(OpAdd, e.K(a), e.bin(OpMul, e.K(b), e.K(c)))
+	if at, ok := a.(*Term); ok && e.AliasMode && at.Op == OpAtom {
+		// a plain variable is a one-term expression with no spare capacity: the result fits its storage
+		// exactly when it is again a multiple of that variable
+		kb, kc := e.K(b), e.K(c)
+		if (kc.IsConst() && multipleOf(kb, at)) || (kb.IsConst() && multipleOf(kc, at)) {
+			if e.AliasSubst == nil {
+				e.AliasSubst = map[*Term]*Term{}
+			}
+			e.AliasSubst[at] = r
+			return at
+		}
+	}
 	if m, ok := a.(*Mut); ok && e.AliasMode {
 		m.T = r // the accumulator's storage is reused
 		return m
 	}
 	return e.wrap(r)
+}
+
+// multipleOf reports whether t is syntactically a constant multiple of the variable at.
+func multipleOf(t, at *Term) bool {
+	switch {
+	case t == at:
+		return true
+	case t.Op == OpMul && len(t.Args) == 2:
+		return (t.Args[0].IsConst() && multipleOf(t.Args[1], at)) || (t.Args[1].IsConst() && multipleOf(t.Args[0], at))
+	case (t.Op == OpAdd || t.Op == OpSub) && len(t.Args) == 2:
+		return multipleOf(t.Args[0], at) && multipleOf(t.Args[1], at)
+	}
+	return false
 }
 
 func (e *Ctx) site() string {
